@@ -67,6 +67,7 @@ def run_kwargs(cfg, out_file):
         grid_size=cfg.get("grid_size", 11), num_iters=cfg.get("iters", 6), num_particles=cfg.get("N", 4), outlier_prob=cfg.get("outlier_prob", 0.0),
         precision=cfg.get("precision", 400.0), print_freq=1000, proposal=cfg.get("proposal", "semi-adapted"), seed=cfg.get("seed", 7),
         thin=1, num_chains=cfg["chains"], subtree_update_prob=cfg.get("subtree_prob", 0.0),
+        assign_loss_prob=cfg.get("assign_loss_prob", False),
     )
 
 
